@@ -12,10 +12,12 @@ Checks(ev) ==
     [] ev.rel = "mono" -> MonoSpec(ev.fn)
     [] ev.rel = "same" -> Same("biteq", Len(ev.a))
     [] ev.rel = "close" -> Same("close", Len(ev.a))
-    [] ev.rel = "perfect" -> [k \in 1..Len(ev.a) |-> <<ev.opt[k], k, k>>]
+    [] ev.rel = "perfect" -> [k \in 1..Len(ev.a) |-> <<ev.opt[k], k, k>>]          \* optimum given in the event (C12)
+    [] ev.rel = "perfect2" -> LET o == PerfectSpec(ev.fn) IN
+                              IF Len(o) # Len(ev.a) THEN <<<<"arity", 1, 1>>>> ELSE [k \in 1..Len(o) |-> <<o[k], k, k>>]
 FirstBad(ev) ==
   LET cs == Checks(ev)
-      bad == {k \in 1..Len(cs) : cs[k][1] # "any" /\ ~Holds(cs[k], ev.a, ev.b)}
+      bad == {k \in 1..Len(cs) : cs[k][1] # "any" /\ (cs[k][1] = "arity" \/ ~Holds(cs[k], ev.a, ev.b))}
   IN  IF Len(ev.a) # Len(ev.b) THEN "arity-differs"
       ELSE IF ev.aexc # ev.bexc THEN "outcome-class-differs"
       ELSE IF ev.aexc # "ok" THEN "ok"           \* both rejected the input in the same way
